@@ -179,7 +179,7 @@ def sp_params(tier):
     for n, pb in B.bad_params():
         out.append(item('ref', 'bignParamsVal', dict(params=pb), 'invalid ' + n))
     for s in B.OID_STRINGS_OK + B.OID_STRINGS_BAD:
-        out.append(item('ref', 'bignOidToDER', dict(oid=s), 'oid'))
+        out.append(item('ref', 'bign.oidToDER', dict(oid=s), 'oid'))
     return out
 
 def sp_keys(tier):
